@@ -32,6 +32,7 @@ const (
 	opForeign           // call the release func of another goroutine's holder (non-blocking pick)
 	opSnipe             // wait (bounded) for another holder's f to return, then release that holder
 	opTRNoHolder        // TemporarilyRelease on a context without holder
+	opChild             // start a goroutine that calls Acquire on THIS holder's returned context (nested Acquire), runs Sub, releases
 )
 
 type op struct {
@@ -68,6 +69,8 @@ func opsString(ops []op) string {
 			sb.WriteString("S")
 		case opTRNoHolder:
 			fmt.Fprintf(&sb, "N%d", o.A)
+		case opChild:
+			sb.WriteString("C{" + opsString(o.Sub) + "}")
 		}
 	}
 	return sb.String()
@@ -81,17 +84,17 @@ func (s script) String() string {
 	return strings.Join(parts, " ; ")
 }
 
-func genOps(r *rand.Rand, n, depth int, simple bool) []op {
+func genOps(r *rand.Rand, n, depth int, simple, child bool) []op {
 	var ops []op
 	for i := 0; i < n; i++ {
-		switch k := r.Intn(12); {
+		switch k := r.Intn(14); {
 		case k < 2:
 			ops = append(ops, op{K: opWork, A: r.Intn(4)})
 		case k < 6:
 			if depth >= 3 || (simple && depth >= 1) {
 				ops = append(ops, op{K: opWork, A: 1})
 			} else {
-				ops = append(ops, op{K: opTR, Sub: genOps(r, r.Intn(4), depth+1, simple)})
+				ops = append(ops, op{K: opTR, Sub: genOps(r, r.Intn(4), depth+1, simple, child)})
 			}
 		case k < 7:
 			ops = append(ops, op{K: opRel})
@@ -105,8 +108,20 @@ func genOps(r *rand.Rand, n, depth int, simple bool) []op {
 			} else {
 				ops = append(ops, op{K: opTRNoHolder, A: r.Intn(2)})
 			}
-		default:
+		case k < 12:
 			ops = append(ops, op{K: opWork, A: 1 + r.Intn(3)})
+		default:
+			if simple || !child {
+				ops = append(ops, op{K: opWork, A: 1})
+			} else {
+				// the child mostly waits inside TemporarilyRelease, as a batch waiter does
+				var sub []op
+				if r.Intn(3) != 0 {
+					sub = append(sub, op{K: opTR, Sub: genOps(r, r.Intn(3), 1, simple, false)})
+				}
+				sub = append(sub, genOps(r, r.Intn(3), 0, simple, false)...)
+				ops = append(ops, op{K: opChild, Sub: sub})
+			}
 		}
 	}
 	return ops
@@ -139,7 +154,7 @@ func genScript(r *rand.Rand, simple bool) script {
 		if simple {
 			nb = r.Intn(3)
 		}
-		seg.Body = genOps(r, nb, 0, simple)
+		seg.Body = genOps(r, nb, 0, simple, true)
 		s = append(s, seg)
 	}
 	return s
@@ -181,6 +196,22 @@ func (e *env) runOps(a *actor, r *rand.Rand, h *holder, ops []op, inTR bool) {
 				e.count("op:snipe_release")
 				e.release(a, t)
 			}
+		case opChild:
+			if h.kind != ctxNormal {
+				gosched(1)
+				break
+			}
+			e.count("op:child_acquire_on_parent_context")
+			ca := e.newActor()
+			cr := rand.New(rand.NewSource(r.Int63()))
+			sub := o.Sub
+			e.wg.Add(1)
+			go func() {
+				defer e.wg.Done()
+				c := e.acquire(ca, h.ctx, ctxNormal, nil)
+				e.runOps(ca, cr, c, sub, false)
+				e.release(ca, c)
+			}()
 		case opTRNoHolder:
 			e.count("op:tr_without_holder")
 			ctx := e.base
@@ -322,10 +353,12 @@ func (e *env) epilogue(run *vlib.Run, i int, desc map[string]interface{}) bool {
 func (e *env) shape(evs []event, ov overlap) (string, bool, map[string]int) {
 	owner := map[int]int{}
 	kind := map[int]int{}
+	nested := map[int]bool{}
 	e.mu.Lock()
 	for _, h := range e.holders {
 		owner[h.id] = h.owner
 		kind[h.id] = h.kind
+		nested[h.id] = h.nested
 	}
 	e.mu.Unlock()
 	sig := map[int]*strings.Builder{}
@@ -339,6 +372,10 @@ func (e *env) shape(evs []event, ov overlap) (string, bool, map[string]int) {
 		if sb == nil {
 			sb = &strings.Builder{}
 			sb.WriteString(ctxNames[kind[ev.H]][:1] + ":")
+			if nested[ev.H] {
+				sb.WriteString("child:")
+				feats["holder_acquired_on_parent_context"]++
+			}
 			sig[ev.H] = sb
 		}
 		switch ev.K {
@@ -453,7 +490,7 @@ func randomScenario(run *vlib.Run, i int, agg *vlib.HitAgg, simple bool) (*env, 
 		ss = append(ss, fmt.Sprintf("g%d: %s", k, s))
 	}
 	desc["scripts"] = ss
-	desc["script_format"] = "A:<ctx>[ops]R<k>: Acquire, ops, k release calls; wK yields, T(..) TemporarilyRelease, R own release, F foreign release, S foreign release aimed at a returning TemporarilyRelease, N TemporarilyRelease without holder"
+	desc["script_format"] = "A:<ctx>[ops]R<k>: Acquire, ops, k release calls; wK yields, T(..) TemporarilyRelease, R own release, F foreign release, S foreign release aimed at a returning TemporarilyRelease, N TemporarilyRelease without holder, C{..} another goroutine calls Acquire on this holder's returned context (nested Acquire), runs the ops, releases"
 
 	y.Install()
 	defer vlib.Uninstall()
@@ -668,6 +705,137 @@ func targetedScenario(run *vlib.Run, i int, agg *vlib.HitAgg) {
 	e.mu.Unlock()
 }
 
+// nestedScenario drives the fan-out shape: parent P acquires on the base
+// context and stays in its critical section; 1..2 children (other goroutines)
+// call Acquire on P's RETURNED context (a context that already carries a holder
+// of the same limiter) and wait inside TemporarilyRelease, as batch.Invoke
+// waiters do; then n other goroutines call Acquire. P never enters
+// TemporarilyRelease, so the monitor keeps counting P: with the children's
+// tokens given up exactly n-1 of the others may get in while P holds.
+func nestedScenario(run *vlib.Run, i, k int, agg *vlib.HitAgg) {
+	n := 2 + k%3
+	children := 1 + (k/3)%2
+	if children > n-1 {
+		children = n - 1
+	}
+	intensity := []int{0, 25}[(k/6)%2]
+	nestedTR := (k/12)%2 == 1
+	e := newEnv(n)
+	y := vlib.NewYielder(run.Seed()*104729+int64(i), intensity)
+	e.y = y
+	y.Install()
+	defer vlib.Uninstall()
+	defer agg.Add(y)
+	desc := map[string]interface{}{"kind": "nested-acquire", "children": children, "child_nests_tr": nestedTR, "yield_intensity": intensity,
+		"scenario": "P: ctxP, relP := Acquire(base) and keeps running; each child goroutine: ctxC, relC := Acquire(ctxP); TemporarilyRelease(ctxC, wait); then n goroutines Acquire(base); P releases only after n-1 of them hold"}
+
+	pa := e.newActor()
+	P := e.acquire(pa, e.base, ctxNormal, nil)
+	gate := make(chan struct{})
+	inTR := make(chan struct{}, children)
+	var wg sync.WaitGroup
+	for c := 0; c < children; c++ {
+		ca := e.newActor()
+		wg.Add(1)
+		go func() {
+			defer wg.Done()
+			ch := e.acquire(ca, P.ctx, ctxNormal, nil)
+			body := func() { inTR <- struct{}{}; <-gate }
+			if nestedTR {
+				inner := body
+				body = func() { e.tr(ca, ch, inner) }
+			}
+			e.tr(ca, ch, body)
+			e.release(ca, ch)
+		}()
+	}
+	childrenWait := make(chan struct{})
+	go func() {
+		for c := 0; c < children; c++ {
+			<-inTR
+		}
+		close(childrenWait)
+	}()
+	fail := func(o vlib.Outcome, what string) {
+		e.hang(run, i, o, what, desc)
+		run.Case("nested hang", false)
+	}
+	if o := e.await(childrenWait); o != vlib.Reached {
+		fail(o, "nested Acquire on the parent's context / entering TemporarilyRelease")
+		return
+	}
+	var got int32
+	most := make(chan struct{}) // n-1 of the others hold
+	all := make(chan struct{})  // all n hold
+	relAll := make(chan struct{})
+	for k := 0; k < n; k++ {
+		oa := e.newActor()
+		wg.Add(1)
+		go func() {
+			defer wg.Done()
+			h := e.acquire(oa, e.base, ctxNormal, nil)
+			switch int(atomic.AddInt32(&got, 1)) {
+			case n - 1:
+				close(most)
+				if n == 1 {
+					close(all)
+				}
+			case n:
+				close(all)
+			}
+			<-relAll
+			e.release(oa, h)
+		}()
+	}
+	if o := e.await(most); o != vlib.Reached {
+		fail(o, "Acquire of n-1 goroutines while the parent holds and the children wait inside TemporarilyRelease")
+		return
+	}
+	// chance for a wrongly admitted n-th Acquire to return; the verdict is the
+	// tick order against P's release, not this delay
+	for k := 0; k < 40; k++ {
+		select {
+		case <-all:
+			k = 40
+		default:
+			gosched(1)
+		}
+	}
+	e.release(pa, P)
+	if o := e.await(all); o != vlib.Reached {
+		fail(o, "n-th Acquire after the parent released")
+		return
+	}
+	close(relAll)
+	close(gate)
+	done := make(chan struct{})
+	go func() { wg.Wait(); close(done) }()
+	if o := e.await(done); o != vlib.Reached {
+		fail(o, "children returning from TemporarilyRelease and releasing")
+		return
+	}
+	if !e.epilogue(run, i, desc) {
+		run.Case("nested hang", false)
+		return
+	}
+	ov := e.verdict(run, i, desc)
+	evs := e.merged()
+	sh, _, feats := e.shape(evs, ov)
+	run.Case(fmt.Sprintf("nested children=%d tr2=%v %s", children, nestedTR, sh), true)
+	run.Count("nested_acquire_cases", 1)
+	for f, c := range feats {
+		run.Count("observed:"+f, c)
+	}
+	e.mu.Lock()
+	for f, c := range e.feat {
+		run.Count(f, c)
+	}
+	e.mu.Unlock()
+	if n == 2 {
+		porcupineCheck(run, i, e, evs, 24)
+	}
+}
+
 // ---------------------------------------------------------------- porcupine
 
 type semIn struct {
@@ -829,7 +997,8 @@ func TestCheck(t *testing.T) {
 	run := vlib.Start(t, "C20", "exploration")
 	defer run.Finish()
 	run.Rule("three seeded families on the real limiter: (1) targeted: n in 1..4, H1 inside TemporarilyRelease, n others hold, a foreign release of H1 is injected at hook limiter.block.reacquiring and an extra Acquire is issued (with/without an Acquire already parked, with/without random yields); " +
-		"(2) random: n in 1..4, 2..24 goroutines, each 1..3 Acquire segments on a limiter / pre-cancelled / limiter-less / concurrently-cancelled context with bodies of nested TemporarilyRelease (depth<=3), early and double release, release inside own TemporarilyRelease, release of other goroutines' holders (also aimed at a returning TemporarilyRelease), TemporarilyRelease without holder, random hook yields and an optional injected release at a limiter hook; every scenario ends with the capacity check (n fresh Acquires, Acquire on cancelled / limiter-less contexts while all tokens are held, (n+1)-th Acquire only after a release); " +
+		"(1b) nested Acquire: n in 2..4, parent P holds and keeps running, 1..2 child goroutines Acquire on P's returned context and wait inside (nested) TemporarilyRelease, n others Acquire, P releases only after n-1 of them hold; " +
+		"(2) random: n in 1..4, 2..24 goroutines, each 1..3 Acquire segments on a limiter / pre-cancelled / limiter-less / concurrently-cancelled context with bodies of nested TemporarilyRelease (depth<=3), early and double release, release inside own TemporarilyRelease, release of other goroutines' holders (also aimed at a returning TemporarilyRelease), child goroutines that Acquire on the running parent's returned context and mostly wait inside TemporarilyRelease, TemporarilyRelease without holder, random hook yields and an optional injected release at a limiter hook; every scenario ends with the capacity check (n fresh Acquires, Acquire on cancelled / limiter-less contexts while all tokens are held, (n+1)-th Acquire only after a release); " +
 		"(3) the targeted histories with n<=2 and short random histories (<=12 scripted operations plus the capacity check, n in 1..2, 2..4 goroutines) additionally checked with porcupine against a counting-semaphore model. " +
 		"Non-trivial = the limit was reached in the scripted part (observed overlap == n before the capacity check) and some holder had a TemporarilyRelease plus a foreign release or a release inside it; distinct = n, max overlap and the multiset of per-holder lifecycles (outermost TR enter/return, own/foreign release and whether it fell outside TR, inside f, or in the re-acquire window).")
 	run.Assume("holding spans are bracketed by ticks of one atomic counter taken after Acquire returned / before release is called / before TemporarilyRelease is entered / after it returned, so the monitor can only under-count")
@@ -838,9 +1007,10 @@ func TestCheck(t *testing.T) {
 
 	agg := vlib.NewHitAgg()
 	nT := run.N(240, 4000)
+	nN := run.N(120, 3000)
 	nR := run.N(30000, 1600000)
 	nP := run.N(1500, 100000)
-	run.Each(nT+nR+nP, 1, func(i int) {
+	run.Each(nT+nN+nR+nP, 1, func(i int) {
 		if run.Violations() >= 6 {
 			// enough unclassified witnesses; hung scenarios leave parked goroutines
 			// behind and cost seconds each, so stop early
@@ -851,7 +1021,9 @@ func TestCheck(t *testing.T) {
 		switch {
 		case i < nT:
 			targetedScenario(run, i, agg)
-		case i < nT+nR:
+		case i < nT+nN:
+			nestedScenario(run, i, i-nT, agg)
+		case i < nT+nN+nR:
 			randomScenario(run, i, agg, false)
 		default:
 			porcupineScenario(run, i, agg)
